@@ -149,8 +149,17 @@ def run_op(case, seed):
                 h=MH @ ya.ravel(), n=MN @ xa.ravel(), H=M @ xa.ravel())
     real_outcome = set()
 
+    def built_from_ok(created, tag):
+        for arr, cp in created:
+            if arr.tobytes() != cp.tobytes():
+                V("built-from-array-mutated", tag, "%s: an array the operator was built from was modified" % tag)
+                return
+
     def run_history(word):
+        del opcat.CREATED[:]
         A = opcat.build(spec, seed)
+        created = list(opcat.CREATED)
+        built_from_ok(created, "construction")
         snap = snapshot.walk(A)
         v_before = len(viol)
         kept = []   # (event, live output object, copy at return time): results of earlier calls must stay valid
@@ -198,6 +207,7 @@ def run_op(case, seed):
                 if arr.tobytes() != pristine[nm].tobytes():
                     V("input-mutated", when, "history %s: input %s was modified" % ("".join(word[:step + 1]), nm))
                     live[nm][...] = pristine[nm]
+            built_from_ok(created, when)
             snap2 = snapshot.walk(A)
             for p, d in snap.items():
                 if p in snap2 and snap2[p] != d:
